@@ -47,15 +47,99 @@ def eff_seed(seed):
     return seed % 8
 
 
+TWODB = {'quick': 6, 'thorough': 60}
+
+
 def plan(tier, seed):
     es = eff_seed(seed)
     return [{'mode': 'core', 'seed': 0, 'i': i} for i in range(len(CORE))] + \
-        [{'mode': 'upgrade', 'seed': es, 'i': i} for i in range(SIZES[tier])]
+        [{'mode': 'upgrade', 'seed': es, 'i': i}
+         for i in range(SIZES[tier])] + \
+        [{'mode': 'twodb', 'seed': es, 'i': i} for i in range(TWODB[tier])]
+
+
+def run_twodb(desc):
+    """Two databases holding the same apps at different versions: the
+    preview for `--database other` must be computed from what *that*
+    database stores."""
+    rng = seqcase.rng_for('C14', 'twodb', desc['seed'], desc['i'])
+    h = None
+    for _try in range(8):
+        h = histories.gen_history(rng, 2, apps=('app1',))
+        if h.texts[0].get('app1') and h.texts[1].get('app1'):
+            break
+    key = S.canon([h.specs, 'twodb'])
+    items, stats = [], {'twodb_projects': 1, 'processes': 0}
+    if not (h.texts[0].get('app1') and h.texts[1].get('app1')):
+        return {'key': key, 'nontrivial': False, 'items': [],
+                'stats': {'skipped_no_history': 1}, 'case': None}
+    proj = projlab.Project()
+    try:
+        histories.write_project(proj, h, ('app1',))
+
+        def run(action, v, alias, other_file='o.db', hashseed='0'):
+            stats['processes'] += 1
+            return proj.run(action, version=v, db='d.db', db2=other_file,
+                            args={'database': alias}, hashseed=hashseed)
+        for alias in ('default', 'other'):
+            ev = run('evolve_api', 0, alias)
+            if ev.get('driver_error') or not ev['outcome']['ok']:
+                return {'key': key, 'nontrivial': False, 'items': [],
+                        'stats': {'skipped_install_failed': 1}, 'case': None}
+        ev = run('evolve_api', 1, 'default')      # default is one ahead
+        if ev.get('driver_error') or not ev['outcome']['ok']:
+            return {'key': key, 'nontrivial': False, 'items': [],
+                    'stats': {'skipped_install_failed': 1}, 'case': None}
+        outs = {}
+        for hs in SEEDS[:3]:
+            pv = run('sql', 2, 'other', hashseed=hs)
+            if pv.get('driver_error') or not pv['outcome']['ok']:
+                items.append({'type': 'PREVIEW_FAILED', 'hashseed': hs,
+                              'detail': str(pv.get('outcome') or pv)[:300]})
+                continue
+            outs[hs] = pv['stdout']
+        if len(set(outs.values())) > 1:
+            items.append({'type': 'PREVIEW_NONDETERMINISTIC',
+                          'variants': len(set(outs.values())),
+                          'same_multiset': None, 'first_diff': None})
+        proj.copy_db('o.db', 'o_exec.db')
+        ex = run('evolve_cmd', 2, 'other', other_file='o_exec.db')
+        nontrivial = False
+        if ex.get('driver_error') or not ex['outcome']['ok']:
+            stats['skipped_exec_failed'] = 1
+        elif outs:
+            pv = parse_preview(outs[SEEDS[0]])
+            exb = executed_blocks(ex)
+            stats['previews_compared'] = 1
+            nontrivial = sum(len(v) for v in pv.values()) >= 2
+            for app in sorted(set(pv) | set(exb)):
+                p, x = pv.get(app, []), exb.get(app, [])
+                stats['statements_compared'] = stats.get(
+                    'statements_compared', 0) + max(len(p), len(x))
+                if p != x:
+                    items.append({
+                        'type': 'PREVIEW_DIFFERS_FROM_EXECUTION', 'app': app,
+                        'n_preview': len(p), 'n_executed': len(x),
+                        'same_multiset': sorted(p) == sorted(x),
+                        'preview': (p[:1] or ['<end>'])[0][:160],
+                        'executed': (x[:1] or ['<end>'])[0][:160]})
+    finally:
+        proj.cleanup()
+    ops = seqcase.op_kinds(h.steps[0] + h.steps[1])
+    for it in items:
+        it['ops'] = sorted(set(ops))
+        it['has_together'] = False
+        it['twodb'] = True
+    return {'key': key, 'nontrivial': nontrivial, 'items': items,
+            'stats': stats, 'case': {'specs': h.specs, 'texts': h.texts,
+                                     'ops': ops, 'twodb': True}}
 
 
 def _core_spec(meta):
+    meta = dict(meta)
+    a = dict({'kind': 'Integer'}, **meta.pop('__a__', {}))
     return {'app1': {'A': {'fields': [
-        ['a', {'kind': 'Integer'}], ['b', {'kind': 'Integer'}],
+        ['a', a], ['b', {'kind': 'Integer'}],
         ['c', {'kind': 'Char', 'max_length': 20}],
         ['d', {'kind': 'Integer', 'null': True}]], 'meta': meta}}}
 
@@ -103,6 +187,16 @@ CORE = [
                   'name': 'ck_a'},
                  {'type': 'check', 'check': ['gte', 'b', 0],
                   'name': 'ck_b'}]}]),
+    # two plain indexes on one column (the field's own and a Meta index
+    # whose name sorts differently); the field's index is dropped
+    ({'__a__': {'db_index': True},
+      'indexes': [{'fields': ['a'], 'name': 'z_a_lookup'}]},
+     [{'op': 'change_field', 'app': 'app1', 'model': 'A', 'name': 'a',
+       'attrs': {'db_index': False}}]),
+    ({'__a__': {'db_index': True},
+      'indexes': [{'fields': ['a'], 'name': 'a_a_lookup'}]},
+     [{'op': 'change_field', 'app': 'app1', 'model': 'A', 'name': 'a',
+       'attrs': {'db_index': False}}]),
 ]
 
 
@@ -176,6 +270,8 @@ def executed_blocks(ev):
 
 
 def run_case(desc):
+    if desc['mode'] == 'twodb':
+        return run_twodb(desc)
     rng = seqcase.rng_for('C14', desc['seed'], desc['i'])
     two = rng.random() < 0.4 and desc['mode'] != 'core'
     if desc['mode'] == 'core':
